@@ -597,7 +597,7 @@ func (d decomposed192) log() (bool, decomposed192, int8) {
 
 	res := frc
 
-	for i := uint64(3); i <= 25; i += 2 {
+	for i := uint64(3); i <= 33; i += 2 {
 		// res += frc^i / i
 		frc, _ = frc.mul(sqr, int8(0))
 		tmp, _ := frc.quo(decomposed192{
